@@ -19,6 +19,7 @@ def okh(line):
 
 COMPONENTS = [
     {'name': 'c01', 'oracle': True, 'what': 'LosslessDecoder::decode_frame vs Spec.VP8L.decode (and vs libwebp natively, all wrappings)'},
+    {'name': 'c01model', 'oracle': True, 'what': 'Model (Rust-mirroring: BitReader, HuffmanTree, transforms, decode_frame) vs implementation through hooks, under fill_buf schedules'},
     {'name': 'c01spec', 'oracle': True, 'what': 'adequacy: Spec.VP8L.decode vs libwebp WebPDecodeRGBA', 'escalate': False},
 ]
 
